@@ -1505,8 +1505,9 @@ pub trait QueryBuilder:
             && right.is_binary()
             && matches!(right.get_bin_oper(), Some(&BinOper::And));
 
-        // Due to representation of trinary op like/not like with optional arg escape as nested binary ops.
-        let drop_right_escape_hack = op_as_oper.is_like()
+        // Due to representation of trinary op like/not like (and Postgres' ilike/not ilike) with optional arg escape
+        // as nested binary ops.
+        let drop_right_escape_hack = (op_as_oper.is_like() || op_as_oper.is_ilike())
             && right.is_binary()
             && matches!(right.get_bin_oper(), Some(&BinOper::Escape));
 
